@@ -2,6 +2,7 @@ package main
 
 import (
 	"fmt"
+	"go/types"
 	"strings"
 
 	"golang.org/x/tools/go/ssa"
@@ -198,44 +199,83 @@ func ruleC14_2(c *Ctx) {
 			}
 		}
 		seen := map[string]bool{}
-		for _, b := range u.f.Blocks {
-			for _, in := range b.Instrs {
-				mu, ok := in.(*ssa.MapUpdate)
-				if !ok {
-					continue
+		// the map may be assembled by an unexported helper that is handed the values: a value stored there derives from
+		// what the arguments of the call derive from
+		type storeFrame struct {
+			g   *ssa.Function
+			via ssa.CallInstruction
+		}
+		frames := []storeFrame{{u.f, nil}}
+		for _, via := range allCalls(u.f) {
+			h := via.Common().StaticCallee()
+			if h == nil || h.Blocks == nil || h.Pkg != u.f.Pkg || h.Parent() != nil || h.Object() == nil || h.Object().Exported() || h == u.f {
+				continue
+			}
+			if rs := h.Signature.Results(); rs.Len() == 1 {
+				if _, isMap := rs.At(0).Type().Underlying().(*types.Map); isMap {
+					frames = append(frames, storeFrame{h, via})
 				}
-				k, ok := constString(mu.Key)
-				if !ok {
-					continue
+			}
+		}
+		plainDerives := derives
+		for _, sf := range frames {
+			sf := sf
+			derives := func(v ssa.Value, pred func(ssa.Value) bool, through bool) bool {
+				if sf.via == nil {
+					return plainDerives(v, pred, through)
 				}
-				switch k {
-				case "stdout", "stderr":
-					seen[k] = true
-					own, other := "Stdout", "Stderr"
-					if k == "stderr" {
-						own, other = other, own
+				found := false
+				if plainDerives(v, func(x ssa.Value) bool {
+					if p, ok := x.(*ssa.Parameter); ok && p.Parent() == sf.g && paramIndex(p) < len(sf.via.Common().Args) {
+						if plainDerives(sf.via.Common().Args[paramIndex(p)], pred, through) {
+							found = true
+						}
 					}
-					fromOwn := derives(mu.Value, src(own), true)
-					fromOther := derives(mu.Value, src(other), true)
-					c.check(fromOwn && !fromOther, R, fn, "by-product \""+k+"\" is the child's "+own, mu.Pos(), "derives from the "+sinkKind(u, own)+" of "+own,
-						fmt.Sprintf("value stored under %q derives from %s=%v / %s=%v", k, own, fromOwn, other, fromOther))
-				case "return-value":
-					seen[k] = true
-					okRV := false
-					derives(mu.Value, func(v ssa.Value) bool {
-						if conv, ok := v.(*ssa.Call); ok && calleeName(conv) == "in_toto.waitErrToExitCode" {
-							if pc, _ := producer(conv.Call.Args[0], conv); pc != nil && pc == u.wait {
-								okRV = true
-							}
-							if u.runOut != nil {
-								if pc, _ := producer(conv.Call.Args[0], conv); pc == u.runOut {
+					return pred(x)
+				}, through) {
+					return true
+				}
+				return found
+			}
+			for _, b := range sf.g.Blocks {
+				for _, in := range b.Instrs {
+					mu, ok := in.(*ssa.MapUpdate)
+					if !ok {
+						continue
+					}
+					k, ok := constString(mu.Key)
+					if !ok {
+						continue
+					}
+					switch k {
+					case "stdout", "stderr":
+						seen[k] = true
+						own, other := "Stdout", "Stderr"
+						if k == "stderr" {
+							own, other = other, own
+						}
+						fromOwn := derives(mu.Value, src(own), true)
+						fromOther := derives(mu.Value, src(other), true)
+						c.check(fromOwn && !fromOther, R, fn, "by-product \""+k+"\" is the child's "+own, mu.Pos(), "derives from the "+sinkKind(u, own)+" of "+own,
+							fmt.Sprintf("value stored under %q derives from %s=%v / %s=%v", k, own, fromOwn, other, fromOther))
+					case "return-value":
+						seen[k] = true
+						okRV := false
+						derives(mu.Value, func(v ssa.Value) bool {
+							if conv, ok := v.(*ssa.Call); ok && calleeName(conv) == "in_toto.waitErrToExitCode" {
+								if pc, _ := producer(conv.Call.Args[0], conv); pc != nil && pc == u.wait {
 									okRV = true
 								}
+								if u.runOut != nil {
+									if pc, _ := producer(conv.Call.Args[0], conv); pc == u.runOut {
+										okRV = true
+									}
+								}
 							}
-						}
-						return false
-					}, true)
-					c.check(okRV, R, fn, "by-product \"return-value\" = waitErrToExitCode(cmd.Wait())", mu.Pos(), "derived from Wait's error through the conversion helper", "the stored exit status does not derive from cmd.Wait() through waitErrToExitCode")
+							return false
+						}, true)
+						c.check(okRV, R, fn, "by-product \"return-value\" = waitErrToExitCode(cmd.Wait())", mu.Pos(), "derived from Wait's error through the conversion helper", "the stored exit status does not derive from cmd.Wait() through waitErrToExitCode")
+					}
 				}
 			}
 		}
